@@ -29,7 +29,7 @@ PROPS = {
         assumptions=['entry_size of every presented pair fits in usize (DESIGN.md 9.2)', '0 < size_of::<Entry<K,V>>() and size_of::<V>() <= size_of::<Entry<K,V>>()'],
     ),
     'C02': dict(
-        comps=['mon_c02', 'api_len'],
+        comps=['mon_c02', 'mon_c02_sum', 'api_len'],
         theorems=['C02_sum', 'C02_monitor_sound'],
         assumptions=['key and value sizes change only inside mutate (the harness types guarantee it)'],
     ),
@@ -55,7 +55,7 @@ PROPS = {
         assumptions=['object identity = token carried by the instrumented key/value types; Drop logs the token'],
     ),
     'C07': dict(
-        comps=['mon_c07', 'addr_stable', 'bsim', 'api_map', 'api_len', 'api_order'], corr_only=['bsim'],
+        comps=['mon_c07', 'addr_stable', 'bsim', 'api_map', 'api_len', 'api_order', ('res', ['iter'])], corr_only=['bsim'],
         theorems=['C07_unhinge', 'C07_set_head', 'C07_touch', 'C07_realloc', 'C07_traversal', 'C07_b_touch', 'C07_b_remove', 'C07_b_insert_new', 'C07_b_moves', 'C07_monitor_sound'],
         assumptions=['Layer B faults on access to unallocated/freed nodes and on reading moved-out or uninitialised payloads; aliasing-model UB is outside the model (DESIGN.md 6, 9.1)',
                      'the monitor ri_check (proved sound: C07_monitor_sound) is evaluated on the pointer graph the dangling-safe hook walker reports after every step; bucket addresses of surviving entries must be stable unless the table was rebuilt', 'bsim: the extracted Layer B operations (B/OpsB.v: touch_ptr, unhinge, set_head, move, composed as src/lib.rs composes them) are run on the observed pointer graph before each step and must produce exactly the links and recorded sizes observed after it'],
